@@ -237,7 +237,7 @@ async fn execute_field<'a>(
     mode: ExecutionMode,
     object_type: &ObjectType,
     object_value: MaybeAsyncObject<'_>,
-    field_def: &FieldDefinition,
+    field_def: &'a FieldDefinition,
     fields: &[&'a Field],
 ) -> Result<Option<JsonValue>, PropagateNull> {
     let field = fields[0];
@@ -272,7 +272,10 @@ async fn execute_field<'a>(
         },
     };
     let completed_result = match resolved_result {
-        Ok(resolved) => complete_value(ctx, path, mode, field.ty(), resolved, fields).await,
+        // Use the field definition of the concrete object type, not `field.ty()`:
+        // the latter comes from the type the selection set is written under, possibly an
+        // interface whose field type is narrowed (covariant) by the implementing object type.
+        Ok(resolved) => complete_value(ctx, path, mode, &field_def.ty, resolved, fields).await,
         Err(FieldError { message }) => {
             ctx.errors.push(GraphQLError::field_error(
                 format!("resolver error: {message}"),
